@@ -253,6 +253,17 @@ def run_case(case):
     if a != b:
         diff = [(x, y) for x, y in zip(a, b) if x != y][:3]
         v("C13/user-text-altered", diff=diff, lens=(len(a), len(b)))
+    elif hostile and where in ("str", "data", "print") and '"' not in hostile:
+        # ... and unchanged means: as the SOURCE has them (the comparison above is between two outputs of the tool, which a
+        # change made before parsing alters alike)
+        wanted = ['"%s"' % hostile]
+        if where == "data":
+            # the quoted item and, behind it, the same text as an unquoted item
+            wanted = ['"%s", "%s"' % (hostile, hostile.replace(":", ";").replace(",", ";"))]
+        obs["counters"]["source_literals_checked"] = len(wanted)
+        lost = [w for w in wanted if w not in body]
+        if lost:
+            v("C13/user-text-altered/differs-from-source", lost=lost, where=where)
     if case.get("sample"):
         obs["sample"] = {"source": text[:300], "procname": pname, "size": size, "bundle": names}
     return obs
